@@ -8,3 +8,6 @@ open LhasaV.Props.C13
 #print axioms stream_no_fault
 #print axioms next_work_linear
 #print axioms heap_bounded
+#print axioms avail_nonincreasing
+#print axioms listing_work_linear
+#print axioms run_bounded
